@@ -57,15 +57,32 @@ type memScenario struct {
 
 // memLoop performs n operations of the given mix; i0 is the running op index.
 func memLoop(sub Subject, sc *memScenario, absent [][]byte, i0, n int) {
-	keys := sc.keys
-	nk := len(keys)
 	sink := 0
 	consume := func(s Seq, limit int) {
 		c := 0
 		s(func(k []byte, v int) bool { sink += v; c++; return c < limit })
 	}
 	for j := 0; j < n; j++ {
-		i := i0 + j
+		memStep(sub, sc, absent, i0+j, &sink, consume)
+	}
+	if sink == 42 {
+		fmt.Print("")
+	}
+}
+
+// memStep performs operation number i. A fault of the library is not a statement
+// about memory: it is swallowed (and counted) so that the measurement goes on.
+func memStep(sub Subject, sc *memScenario, absent [][]byte, i int, sinkp *int, consume func(Seq, int)) {
+	defer func() {
+		if r := recover(); r != nil {
+			memPanics.Add(1)
+		}
+	}()
+	keys := sc.keys
+	nk := len(keys)
+	sink := 0
+	defer func() { *sinkp += sink }()
+	{
 		k := keys[i%nk]
 		mix := sc.mix
 		if mix == "m" {
@@ -166,9 +183,18 @@ func memLoop(sub Subject, sc *memScenario, absent [][]byte, i0, n int) {
 			}
 		}
 	}
-	if sink == 42 {
-		fmt.Print("")
-	}
+}
+
+var memPanics atomic.Int64
+
+// safeDo runs one library call; a fault is counted, not propagated.
+func safeDo(f func()) {
+	defer func() {
+		if r := recover(); r != nil {
+			memPanics.Add(1)
+		}
+	}()
+	f()
 }
 
 type memResult struct {
@@ -211,16 +237,16 @@ func runMemScenario1(sc *memScenario) (memResult, string) {
 	res.base = liveHeap()
 	sub := NewSubject(k, IntVals)
 	for i, key := range sc.keys {
-		sub.Insert(key, i)
+		safeDo(func() { sub.Insert(key, i) })
 	}
 	memLoop(sub, sc, absent, 0, sc.n/10+len(sc.keys)*2) // warm-up
 	for _, key := range sc.keys {                       // restore the full key set after a partial wave
-		sub.Insert(key, 1)
+		safeDo(func() { sub.Insert(key, 1) })
 	}
 	// live heap at 0, N, 2N, 4N and 8N operations
 	restore := func() {
 		for _, key := range sc.keys {
-			sub.Insert(key, 1)
+			safeDo(func() { sub.Insert(key, 1) })
 		}
 	}
 	const kib = 1 << 10
@@ -246,13 +272,13 @@ func runMemScenario1(sc *memScenario) (memResult, string) {
 			(res.h[1]-res.h[0])/kib, sc.n, (res.h[2]-res.h[0])/kib, 2*sc.n, (res.h[3]-res.h[0])/kib, 4*sc.n, total/kib, 8*sc.n, sc.mix, len(sc.keys))
 	}
 	for _, key := range sc.keys {
-		sub.Delete(key)
+		safeDo(func() { sub.Delete(key) })
 	}
 	if sc.mix == "f" || sc.mix == "m" {
 		var left [][]byte
-		sub.All()(func(k []byte, _ int) bool { left = append(left, clone(k)); return true })
+		safeDo(func() { sub.All()(func(k []byte, _ int) bool { left = append(left, clone(k)); return true }) })
 		for _, k := range left {
-			sub.Delete(k)
+			safeDo(func() { sub.Delete(k) })
 		}
 	}
 	if sub.Size() != 0 {
